@@ -147,7 +147,13 @@ class Block(Entity):
         tags = self._h5group.open_group("tags")
         if name in tags:
             raise exceptions.DuplicateName("create_tag")
-        tag = Tag.create_new(self.file, self, tags, name, type_, position)
+        try:
+            tag = Tag.create_new(self.file, self, tags, name, type_, position)
+        except Exception:
+            # do not leave a partially created tag behind
+            if name in tags:
+                del tags[name]
+            raise
         return tag
 
     # Source
